@@ -370,6 +370,14 @@ def run(fx, rep):
                     n10 += 1
                     rep.violation('R10', 'sign-after-wide-sum/%s' % lt, F.loc_of(st['span']), 'the magnitude is negated as an %s: 2^63 ns does not fit, so the most negative duration cannot be parsed back' % lt)
     rep.check(n10 >= 1, 'R10', 'negation-found', 'interpreter/src/duration.rs', 'parse_duration applies the sign by a negation', 'no negation found in parse_duration (anchor lost): how is the sign applied?')
+    # ---------------- R11 every term has a unit
+    rep.rule('R11', 'a term is a number followed by a unit: no successful return of the term parser bypasses parse_unit')
+    tb = fx.body(DUR + 'parse_number_unit')
+    pus = [bi for bi, t in tb.calls() if F.norm_callee(t) == DUR + 'parse_unit']
+    oks = [bi for bi, j, st in tb.stmts() if st['k'] == 'Assign' and st['rv']['k'] == 'Aggregate' and st['rv'].get('variant') == 'Ok' and (st['rv'].get('adt') or '').endswith('Result')]
+    okk = len(pus) == 1 and bool(oks) and all(tb.dominates(pus[0], o) for o in oks)
+    rep.check(okk, 'R11', 'unit-on-every-successful-term', tb.loc(), 'parse_unit dominates every Ok(..) of parse_number_unit',
+              'parse_number_unit can return Ok without having parsed a unit (%d parse_unit call(s), %d Ok site(s)): duration(\'1h0\') / a missing unit is accepted' % (len(pus), len(oks)))
     rep.floor('R5', 7)
     rep.floor('R8', 3)
     rep.floor('R3', 5)
